@@ -127,6 +127,12 @@ def run (c : Cfg) (retries : Int) (op : Nat → Outcome) (ctx : Ctx) (rnd : Nat 
     | .fatal => ⟨1, some (newFError (.op 1) c.keepErrs), [], false⟩
     | .retry => loop c.norm retries op ctx.ev rnd fuel 1 (newFError (.op 1) c.keepErrs) []
 
+/-- the deadline check `time.Now().Add(wait).After(deadline)` for a context whose deadline lies `thr` ahead and whose
+`Done()` never fires within the run (`thr` is far longer than the run): the wait after the n-th call is refused iff the
+pause the loop computed exceeds `thr`.  The pause is the one of the *normalised* policy, as in `run`. -/
+def evProbe (c : Cfg) (thr : Int) (rnd : Nat → Int) (n : Nat) : WaitEv :=
+  if c.norm.nextWait n (rnd n) > thr then .exceeds else .pass
+
 /-! ## finite scripts (what the oracle and the harness use) -/
 
 /-- the k-th entry (1-based) of a finite script; past its end the operation succeeds / nothing happens -/
@@ -165,5 +171,11 @@ def specWaitOk (base max : Int) (jitter : Bool) (n w : Int) : Bool :=
   else if jitter then
     decide (0 ≤ w) && decide (w ≤ min max (base * ((2 : Int) ^ n.toNat - 1))) && (w == max || w % base == 0)
   else w == min max (base * (2 : Int) ^ (n - 1).toNat)
+
+
+/-- a run against a context whose deadline lies `thr` ahead (see `evProbe`); no jitter draws are scripted -/
+def runProbe (c : Cfg) (retries : Int) (script : List Outcome) (thr : Int) : Out :=
+  run c retries (opOf script) ⟨none, evProbe c thr (rndOf [])⟩ (rndOf []) (script.length + 2)
+
 
 end LLRP.Retry
